@@ -255,10 +255,16 @@ def showCState (st : List ((String × Int) × CState)) : String :=
     | .val o m => s!"{t}/{p}={o}~{m}")))
 
 def ofetchRef (st : List ((String × Int) × CState)) (req : String) : Option String := do
-  let ts ← (splitD req "|").mapM fun t =>
+  -- "nil" / "empty" user map = all topics of the group (a NULL topics array on the wire): every partition the
+  -- group has committed, by topic and ascending partition
+  let allTs : List (String × List Int) :=
+    let names := sortBy (fun a b => a < b) ((st.map (·.1.1)).eraseDups)
+    names.map fun n => (n, sortBy (fun a b => a < b) ((st.filter (·.1.1 == n)).map (·.1.2)))
+  let parsed : Option (List (String × List Int)) := (splitD req "|").mapM fun (t : String) =>
     match t.splitOn ":" with
     | [n, ps] => do let ps ← (splitD ps ".").mapM (·.toInt?); pure (n, ps)
     | _ => none
+  let ts ← if req == "nil" || req == "empty" then some allTs else parsed
   let ts := sortBy (fun a b => a.1 < b.1) ts
   let body := ts.map fun (n, ps) =>
     s!"{n}:" ++ ",".intercalate (ps.map fun p =>
@@ -315,7 +321,8 @@ def rpartsRef (topics : String) (cluster : String) : Option String :=
   match cluster.splitOn "/" with
   | [_, _, ts] =>
     let all := splitD ts "|"
-    let ps := (splitD topics ",").flatMap fun n =>
+    let asked := if topics == "all" then all.filterMap (fun t => (t.splitOn ":").head?) else splitD topics ","
+    let ps := asked.flatMap fun n =>
       match all.find? (·.startsWith (n ++ ":")) with
       | some t =>
         match t.splitOn ":" with
